@@ -54,6 +54,7 @@ namespace {
         bool interrupted = false;
         bool in_disabled = false;   // body is inside a disable_interruption section
         bool in_between = false;    // body is between interruption points
+        int handover = 0;
         bool released = false;
         bool self_join_checked = false;
         uint64_t done_seq = 0;
@@ -186,7 +187,25 @@ namespace {
         bool const is_j = t.ctl == C_JTHREAD_DTOR || t.ctl == C_JTHREAD_STOP_JOIN || t.body == B_STOPPABLE;
         if (is_j)
         {
-            pika::jthread j([&t, idx](pika::stop_token st) { body(t, idx, std::move(st)); });
+            pika::jthread j0([&t, idx](pika::stop_token st) { body(t, idx, std::move(st)); });
+            // the handle may change hands at once (possibly before the new thread has run a single instruction): the
+            // thread's stop token stays tied to the stop source that travels with the handle
+            pika::jthread j1;
+            if (t.handover == 1)
+            {
+                pika::jthread moved(std::move(j0));
+                j1 = std::move(moved);
+            }
+            else if (t.handover == 2)
+                j1 = std::move(j0);
+            else if (t.handover == 3)
+                j1.swap(j0);
+            if (t.handover)
+            {
+                VH_CHECK(!j0.joinable() && j1.joinable(), "C13.moved_from_joinable", "jthread %d: joinable() wrong after the hand-over", idx);
+                probe("jthread.handed_over");
+            }
+            pika::jthread& j = t.handover ? j1 : j0;
             for (int i = 0; i < t.delay; i++) pika::this_thread::yield();
             if (t.body == B_BLOCK) t.sem.release();
             if (t.body == B_INTERRUPTIBLE) t.released = true;
@@ -309,6 +328,7 @@ namespace {
                 op.v[1] = (int64_t) r.below(C_COUNT);
                 op.v[2] = r.range(0, 4);
                 op.v[3] = r.range(0, 5);
+                op.v[4] = r.chance(1, 3) ? r.range(1, 3) : 0;    // jthread: the handle is moved / swapped right after construction
                 prog.push_back(op);
             }
             ctx.program = prog;
@@ -333,6 +353,7 @@ namespace {
             t->ctl = (int) (((op.v[1] % C_COUNT) + C_COUNT) % C_COUNT);
             t->arg = (int) op.v[2];
             t->delay = (int) op.v[3];
+            t->handover = (int) (op.v[4] & 3);
             // stoppable bodies need a jthread; interruption needs an interruptible or finite body
             if (t->body == B_STOPPABLE && t->ctl != C_JTHREAD_STOP_JOIN) t->ctl = C_JTHREAD_DTOR;
             if (t->ctl == C_SELF_JOIN && t->body == B_STOPPABLE) t->body = B_YIELD;
